@@ -226,8 +226,8 @@ class Extractor:
         rtype, fname = m.group(1).strip(), m.group(2)
         body = []
         for r in req:
-            if 'is_fresh' in r:
-                continue
+            if 'is_fresh' in r or 'SV_VALID' in r:
+                continue      # memory-shape preconditions are established by construction at the call sites
             body.append('  __CPROVER_assert(%s, "precondition of %s (skeleton contract)");' % (r, fname))
         olds = []
         def old_sub(e):
